@@ -163,6 +163,21 @@ def generate(rng, tier, seed):
                 valid = bits % 8 == 0 and bits // 8 + 2 <= len(clear)
                 c.deferred_raw = (kbpk, i, h, body[: bits // 8] if valid else None)
                 yield c
+        # protection keys on the boundaries of the CMAC subkey derivation (top bit of E_K(0) / K1, also for the derived KBAK)
+        if ver in "BD":
+            from props.tr31util import boundary_cases
+            for c, kbpk, h, key, w in boundary_cases(rng, ver, tier):
+                if w.ok:
+                    i = c.line(f"spec.tr31_unwrap\t{enc_b(kbpk)}\t{enc_s(w.value)}")
+                    want = "ok\t" + enc_header(h) + "\t" + enc_b(key)
+                    c.pred("key block produced by psec under a CMAC-boundary KBPK is valid per the specification",
+                           lambda rep, i=i, want=want: None if rep[i] == want else f"specification says {rep[i][:120]}")
+                yield c
+                padlen = (-(2 + len(key))) % bs
+                c2 = Case(f"{ver}:cmac-boundary-kbpk:spec-to-psec", {})
+                i = c2.line("spec.tr31_build\t" + "\t".join([enc_b(kbpk), enc_header(h), "s:", "i:0", enc_b(key), enc_b(rb(rng, padlen)), "i:0"]))
+                c2.deferred = (kbpk, i, h, key)
+                yield c2
         # many optional blocks (two-digit block counts 10..30) and very short keys (one cipher block of key data), both directions
         for nb in (9, 10, 11, 16, 30):
             kbpk = rb(rng, ksizes[0])
